@@ -12,7 +12,7 @@ from vlib import coqlist, natlit, optz, zlist, zlit
 from props import dartlib as D
 
 PROPERTY = "C03"
-MODEL_TARGETS = ["Model/C03Schedule.vo"]
+MODEL_TARGETS = ["Model/C03Schedule.vo", "Model/C16Matcher.vo"]
 RULE = ("schedules: 0-5 dims, 1-4 operands, 0-3 results per operand, matrix entries -3..3 (unit / sparse / tiled / "
         "dense styles), offsets, bounds from {1,2,3,4,6,8,12,16}; templates: 1-4 dims, bounds from {None,1,2,3,4,8,0}; "
         "helper arguments include the error cases (dim 0, dim > num_dims, tile 0 / negative / non-divisor); backtracking "
@@ -128,27 +128,81 @@ def _helper_cases(ctx, n):
     return cases, meta, tests
 
 
-def _run_cases(name, imports, cases, meta, tests, timeout=900):
-    order = [k for k in tests if cases.get(k)]
-    text = [imports]
-    for k in order:
-        text.append(f"Definition cases_{k} := {coqlist(cases[k])}.")
-        text.append(f"Eval vm_compute in failing ({tests[k]}) cases_{k}.")
-    ok, out = vlib.coq_eval(name, "\n".join(text) + "\n", timeout=timeout)
-    lists = vlib.parse_all_eval_lists(out)
-    if not ok or len(lists) != len(order):
-        return [{"name": f"cases-file:{name}", "detail": out[-2000:]}]
+def _run_cases(name, imports, cases, meta, tests, timeout=900, chunk=150, nfiles=6):
+    """cases are cut into chunks; the chunks are spread over at most `nfiles` throw-away files compiled
+    in parallel (each file pays the Require once)."""
+    jobs = []
+    for k in tests:
+        cs = cases.get(k) or []
+        for off in range(0, len(cs), chunk):
+            part = cs[off:off + chunk]
+            text = (f"Definition cases_{k}_{off} := {coqlist(part)}.\n"
+                    f"Eval vm_compute in failing ({tests[k]}) cases_{k}_{off}.\n")
+            jobs.append((k, off, text))
+    jobs.sort(key=lambda j: -len(j[2]))
+    shards = [[] for _ in range(min(nfiles, max(1, len(jobs))))]
+    sizes = [0] * len(shards)
+    for j in jobs:
+        i = sizes.index(min(sizes))
+        shards[i].append(j)
+        sizes[i] += len(j[2])
+    results = vlib.coq_eval_many(name, [imports + "\n" + "".join(j[2] for j in sh) for sh in shards], timeout=timeout, par=len(shards))
     dis = []
-    for k, bad in zip(order, lists):
-        for idx in bad:
-            dis.append({"name": f"L1:{k}", "case": meta[k][idx], "coq_case": cases[k][idx][:800]})
+    for sh, (ok, out) in zip(shards, results):
+        lists = vlib.parse_all_eval_lists(out)
+        if not ok or len(lists) != len(sh):
+            dis.append({"name": f"cases-file:{name}", "detail": out[-2000:]})
+            continue
+        for (k, off, _), bad in zip(sh, lists):
+            for idx in bad:
+                dis.append({"name": f"L1:{k}", "case": meta[k][off + idx], "coq_case": cases[k][off + idx][:800]})
     return dis
+
+
+def _backtrack_cases(ctx, n):
+    from snaxc.ir.dart.scheduler import scheduler
+    rng = ctx.rng
+    cases = {"bt": [], "sched": []}
+    meta = {"bt": [], "sched": []}
+    for i in range(n):
+        tp, sp, fam = D.gen_sched_case(rng)
+        T, s = D.mk_template(tp), D.mk_schedule(sp)
+        py, cq, cdesc = D.gen_checks(rng, len(sp))
+        r = D.run_backtrack(T, s, py)
+        if r is None:
+            continue
+        out, raised = r
+        TT, S = D.coq_tmpl(T), D.coq_sched(s)
+        cases["bt"].append(f"({TT}, {S}, {cq}, ({coqlist(D.coq_sched(x) for x in out)}, {vlib.boollit(raised)}))")
+        meta["bt"].append(("scheduler_backtrack", tp, sp, cdesc, fam))
+        ctx.count({"op": "scheduler_backtrack", "family": fam, "template": tp, "schedule": sp, **cdesc, "results": len(out)},
+                  len(out) > 0, f"bt{tp}{sp}{cdesc}", f"backtrack-{fam}-{'yield' if out else 'empty'}")
+        if i % 3 == 0:
+            idx = rng.choice([None, None, 0, 1, -1, len(out), 2])
+            try:
+                res = scheduler(T, s, extra_checks=py, schedule_idx=idx)
+            except (StopIteration, RuntimeError) + D.ERRS:
+                res = None
+            cases["sched"].append(f"({TT}, {S}, {cq}, {optz(idx)}, {D.coq_opt(res, D.coq_sched)})")
+            meta["sched"].append(("scheduler", tp, sp, cdesc, idx))
+            ctx.count({"op": "scheduler", "idx": idx, "template": tp, "schedule": sp, **cdesc}, res is not None, f"sc{tp}{sp}{cdesc}{idx}", "scheduler")
+    chk = "list (tmpl -> sched -> bool)"
+    tests = {
+        "bt": f"fun c : tmpl * sched * {chk} * res => match c with (T, s, ch, r) => "
+              "let r' := backtrack matches ch T s in list_eqb sched_eqb (fst r') (fst r) && Bool.eqb (snd r') (snd r) end",
+        "sched": f"fun c : tmpl * sched * {chk} * option Z * option sched => match c with (T, s, ch, i, r) => "
+                 "option_eqb sched_eqb (scheduler matches ch T s i) r end",
+    }
+    return cases, meta, tests
 
 
 def correspondence(ctx):
     dis = []
-    cases, meta, tests = _helper_cases(ctx, ctx.n(150, 1500))
-    dis += _run_cases("c03h", "From Snax Require Import Base.Prelude Model.C03Schedule.", cases, meta, tests)
+    cases, meta, tests = _helper_cases(ctx, ctx.n(120, 1500))
+    c2, m2, t2 = _backtrack_cases(ctx, ctx.n(240, 3000))
+    cases.update(c2), meta.update(m2), tests.update(t2)
+    dis += _run_cases("c03", "From Snax Require Import Base.Prelude Model.C03Schedule Model.C16Matcher.", cases, meta, tests,
+                      nfiles=ctx.n(6, 12))
     return dis
 
 
@@ -180,6 +234,41 @@ def check_helpers(sp, rng):
     return fails
 
 
+def check_backtrack(tp, sp, cdesc):
+    """every schedule yielded by the real scheduler_backtrack (and the one scheduler() returns) has the image
+    multiset of the input, enumerated with the implementation's own eval."""
+    from snaxc.ir.dart.scheduler import is_memory_flexible_enough, is_pure_output_stationary, scheduler
+    T, s = D.mk_template(tp), D.mk_schedule(sp)
+    py = []
+    if cdesc["checks"] in ("pos", "both"):
+        py.append(is_pure_output_stationary)
+    if cdesc["checks"] in ("mem", "both"):
+        py.append(lambda t, x: is_memory_flexible_enough(t, x, cdesc["sizes"]))
+    r = D.run_backtrack(T, s, py, cap=150)
+    if r is None:
+        return [], 0
+    out, _ = r
+    base = D.image_of(s)
+    fails = []
+    for idx, x in enumerate(out):
+        img = D.image_of(x)
+        if img is None or not D.same_multiset(base, img):
+            fails.append({"what": "backtrack_image", "template": tp, "schedule": sp, "checks": cdesc, "klass": None,
+                          "detail": {"result_index": idx, "result": D.plain(x), "before_points": len(base),
+                                     "after_points": None if img is None else len(img)}})
+            break
+    if out:
+        try:
+            first = scheduler(T, s, extra_checks=py)
+            if not D.same_multiset(base, D.image_of(first)):
+                fails.append({"what": "scheduler_image", "template": tp, "schedule": sp, "checks": cdesc, "klass": None,
+                              "detail": {"result": D.plain(first)}})
+        except Exception as e:  # the generator yielded, so next() must succeed
+            fails.append({"what": "scheduler_raises", "template": tp, "schedule": sp, "checks": cdesc, "klass": None,
+                          "detail": repr(e)[:200]})
+    return fails, len(out)
+
+
 def search(ctx, deep=False):
     rng = ctx.rng
     n = ctx.n(120, 1500) * (3 if deep else 1)
@@ -188,6 +277,13 @@ def search(ctx, deep=False):
         sp = D.gen_schedule_plain(rng, max_points=400)
         fails += check_helpers(sp, rng)
         ctx.count({"L2": "helpers", "schedule": sp}, len(sp[0][0]) >= 2, f"l2h{sp}", "L2-helpers")
+    for i in range(ctx.n(250, 3000) * (3 if deep else 1)):
+        tp, sp, fam = D.gen_sched_case(rng, max_points=400)
+        _, _, cdesc = D.gen_checks(rng, len(sp))
+        f, nres = check_backtrack(tp, sp, cdesc)
+        fails += f
+        ctx.count({"L2": "backtrack", "template": tp, "schedule": sp, **cdesc, "results": nres}, nres > 0,
+                  f"l2b{tp}{sp}{cdesc}", f"L2-backtrack-{fam}")
     return _dedup(fails)
 
 
@@ -211,8 +307,13 @@ def replay(ctx, obj):
         print("no failing input recorded; broken obligations:", obj.get("no_longer_checks"))
         return 1
     sp = [(list(b), [list(r) for r in rows], list(bb)) for (b, rows, bb) in f["schedule"]]
-    res = check_helpers(sp, ctx.rng)
     print("schedule:", sp)
+    if "template" in f:
+        tp = [(list(b), [list(r) for r in rows], list(bb)) for (b, rows, bb) in f["template"]]
+        print("template:", tp, "checks:", f["checks"])
+        res, _ = check_backtrack(tp, sp, f["checks"])
+    else:
+        res = check_helpers(sp, ctx.rng)
     for r in res:
-        print("FAIL", r["what"], r["args"], r["detail"])
+        print("FAIL", r["what"], r.get("args"), r["detail"])
     return 1 if res else 0
